@@ -234,6 +234,23 @@ fn c18_pop_ready_two_matured_shuffled() {
     kani::cover!(due == 3, "all three drained");
 }
 
+// @verif id=C18 tier=thorough role=ring_pop timeout=1800 mem=16 desc=first-in-flight-due-exactly-now,no-ready
+#[kani::proof]
+#[kani::unwind(8)]
+#[kani::stub(tokio::sync::Notify::notify_waiters, stub_notify_waiters)]
+fn c18_pop_ready_completion_visible_at_exactly_its_instant() {
+    let due = pop_step(4, 9, 4, false);
+    kani::cover!(due == 1, "visible at its own instant, the later one is not");
+}
+// @verif id=C18 tier=thorough role=ring_pop timeout=1800 mem=16 desc=second-in-flight-due-first
+#[kani::proof]
+#[kani::unwind(8)]
+#[kani::stub(tokio::sync::Notify::notify_waiters, stub_notify_waiters)]
+fn c18_pop_ready_later_submission_matures_first() {
+    let due = pop_step(9, 3, 5, true);
+    kani::cover!(due == 2, "the ready one and the second submission");
+}
+
 // @verif id=C18 tier=quick role=ring_schedule timeout=900
 #[kani::proof]
 #[kani::unwind(8)]
